@@ -12,7 +12,22 @@
 (*               already popped, dump failed)       _actions.py:256-290    *)
 (*   args[q]     parser.args of parser q (root or sub-parser): "unset" or  *)
 (*               a tag of the last argv             _core.py:447           *)
-(*   shtab[p]    --print_shtab lazily added          _completions.py:39-41 *)
+(*   shtab[p]    the lazily added --print_shtab action of root parser p:   *)
+(*               "no" | "added" (by the first parse_args,                  *)
+(*               _completions.py:39-41) | "broken" (after                  *)
+(*               --print_shtab=<shell> ran: shtab_prepare_actions removed  *)
+(*               the action from parser._actions, :130, but its option     *)
+(*               string stays registered, so the next handle_completions   *)
+(*               adds it again and argparse refuses; on a parser with a    *)
+(*               class-typed argument shtab_prepare_actions also appends   *)
+(*               the nested <cls>.<init_arg> actions to parser._actions    *)
+(*               for good, and every later computation of the defaults     *)
+(*               fails - named deviation "ShtabResidue")                   *)
+(*   dcf[p]      NOT residue of the library but the environment the        *)
+(*               answers depend on: the state of the default config file   *)
+(*               of parser p ("absent" | "v1" | "v2"), changed only by the *)
+(*               environment between calls; a fresh parser reads the       *)
+(*               CURRENT file                                              *)
 (*   pk, sap, dk the three context variables that are set WITHOUT reset:   *)
 (*               parse_kwargs (_actions.py:676-680), subclass_arg_parser   *)
 (*               (_typehints.py:438-442), dump_kwargs (_typehints.py:1341) *)
@@ -42,12 +57,17 @@
 EXTENDS Naturals, Sequences, FiniteSets, TLC
 
 CONSTANT ClearOnError
+CONSTANT ShtabBreaksDefaults    \* the root parsers that own a class-typed argument with a default class: on them the completion
+                                \* script generation leaves MORE behind (see ShtabResidue below)
 
 (***************************************************************************)
 (* Calls as data.  All fields are strings / booleans / sequences of        *)
 (* strings so that sets of calls are homogeneous.                          *)
-(*   m      method: parse_args parse_object parse_string parse_env         *)
-(*          get_defaults dump validate instantiate_classes                 *)
+(*   m      method: parse_args parse_object parse_string parse_path        *)
+(*          parse_env get_defaults dump validate instantiate_classes       *)
+(*          format_help; "environment": not a call of the library but a    *)
+(*          step of the environment (field file: the default config file   *)
+(*          of parser p is written "v1" / edited "v2" / removed "absent")  *)
 (*   p      name of the ROOT parser the call is made on                    *)
 (*   eoe    the parser was built with exit_on_error=True                   *)
 (*   kw     code of {"env":..,"defaults":..} passed to parse_args          *)
@@ -60,6 +80,8 @@ CONSTANT ClearOnError
 (*            pc        --print_config (stores the request)                *)
 (*            pcflag    --print_config=<invalid flag> (raises, no request) *)
 (*            help      --help ;  clshelp  --<cls>.help=<class>            *)
+(*            shtab     --print_shtab=<shell> (prints the completion       *)
+(*                      script and exits 0; root parsers only)             *)
 (*            cfg       --cfg <valid config> (nested parse_string/path)    *)
 (*            cfgbad    --cfg <invalid config>                             *)
 (*            sel       --<cls>=<class spec with init_args> (a valid       *)
@@ -83,7 +105,7 @@ CONSTANT ClearOnError
 (*          the code of the dump kwargs                                    *)
 (***************************************************************************)
 ParseMethods == {"parse_args", "parse_object", "parse_string", "parse_path", "parse_env"}
-Stoppers     == {"bad", "pcflag", "help", "clshelp", "cfgbad"}
+Stoppers     == {"bad", "pcflag", "help", "clshelp", "cfgbad", "shtab"}
 PrintDK      == "skip_none=False,skip_validation=False"     \* what the print point passes to dump (_actions.py:257,286)
 
 ErrCh(o) == IF o.eoe THEN "exit2" ELSE "error"               \* parser.error: _core.py:1056-1068
@@ -93,7 +115,7 @@ FirstStop(its) == IF \E k \in 1..Len(its) : its[k] \in Stoppers
                   ELSE 0
 Completes(its) == FirstStop(its) = 0
 HasBefore(its, x, k) == \E j \in 1..Len(its) : its[j] = x /\ (k = 0 \/ j < k)   \* x occurs (before position k)
-StopOutcome(o, it) == IF it \in {"help", "clshelp"} THEN "exit0:help" ELSE ErrCh(o)
+StopOutcome(o, it) == IF it \in {"help", "clshelp"} THEN "exit0:help" ELSE IF it = "shtab" THEN "exit0:shtab" ELSE ErrCh(o)
 
 (***************************************************************************)
 (* Ref layer: the answer of a call on a fresh parser in a fresh process.   *)
@@ -124,6 +146,7 @@ Enter(v, x)  == I("enter", v, x, "", "")        \* manager that restores in fina
 Leave        == I("leave", "", "", "", "")
 SetU(v, x)   == I("set", v, x, "", "")          \* set WITHOUT reset
 ReadU(v)     == I("read", v, "", "", "")        \* read of a set-without-reset variable / of parser.args
+Defaults(p, ch) == I("defaults", p, ch, "", "")  \* get_defaults() (_core.py:399 / :1008-1052): fails with channel ch under ShtabResidue
 ReadM(v)     == I("readm", v, "", "", "")       \* read of a MANAGED variable outside every manager that sets it
 Fail(ch)     == I("fail", ch, "", "", "")
 Exit0(what)  == I("exit0", what, "", "", "")
@@ -148,6 +171,7 @@ Items(o, its, k, lvl) ==
       [] it = "cfgbad"  -> <<Enter("single_subcommand", "false"), Enter("previous_config", "cfg"), Enter("apply_config_skip", "true"),
                              Fail(ErrCh(o))>>                                                          \* _actions.py:191-205
       [] it = "help"    -> <<Exit0("help")>>                                                           \* argparse._HelpAction
+      [] it = "shtab"   -> <<Enter("shtab_ctx", "shell"), I("shtabrun", o.p, "", "", ""), Exit0("shtab")>>     \* ShtabAction.__call__, _completions.py:98-109, :130
       [] it = "clshelp" -> <<ReadU("args:" \o (IF lvl = "root" THEN o.p ELSE SubName(o.p, lvl))), Exit0("help")>>   \* _actions.py:414-418
       [] it = "cfg"     -> <<Enter("single_subcommand", "false"), Enter("previous_config", "cfg"), Enter("apply_config_skip", "true"),
                              Enter("load_value_mode", "mode"), Leave>>                                 \* _actions.py:191-205, _core.py:667-668
@@ -183,7 +207,7 @@ ParseArgs(o) ==
   (IF ClearOnError THEN <<I("guard", o.p, "", "", "")>> ELSE << >>)                                       \* fix 9a553c5: try/finally around the body (:449-473)
   \o <<I("shtab", o.p, "", "", ""), I("args", o.p, o.tag, "", "")>>                                           \* :439, :447
   \o (IF o.pre = "fail" THEN <<Enter("load_value_mode", "mode"), Fail(ErrCh(o))>>                      \* :404-405 bad environment value
-      ELSE <<SetU("pk", o.kw)>>                                                                       \* :454
+      ELSE <<Defaults(o.p, ErrCh(o)), SetU("pk", o.kw)>>                                              \* :450, :454
            \o Known(o, o.p, o.items, "root",
                     (IF o.sub # "none" THEN SubCall(o) ELSE << >>)
                     \o (IF o.sub # "none" /\ (~Completes(o.sitems) \/ HasBefore(o.sitems, "unk", 0)) THEN << >>
@@ -197,16 +221,17 @@ ParseArgs(o) ==
 ParseOther(o) ==
   (IF o.m = "parse_path" THEN <<Enter("cwd", "cfgdir")>> ELSE << >>)                                                                 \* :621 change_to_path_dir(fpath)
   \o (IF o.m \in {"parse_string", "parse_path"} THEN <<Enter("load_value_mode", "mode"), ReadM("previous_config")>>                   \* :667-668
-                                                      \o (IF o.pre = "fail" THEN <<Fail(ErrCh(o))>> ELSE <<Leave>>)
-      ELSE IF o.m = "parse_env" THEN <<Enter("load_value_mode", "mode")>> \o (IF o.pre = "fail" THEN <<Fail(ErrCh(o))>> ELSE <<Leave>>)  \* :404-405
-      ELSE <<Enter("parent_parser", o.p), Enter("lenient_check", "true")>>                                                              \* _apply_actions :1371-1372
+                                                      \o (IF o.pre = "fail" THEN <<Fail(ErrCh(o))>> ELSE <<Leave, Defaults(o.p, ErrCh(o))>>)   \* :671
+      ELSE IF o.m = "parse_env" THEN <<Defaults(o.p, ErrCh(o)), Enter("load_value_mode", "mode")>>                                     \* :576 -> :399, :404-405
+                                     \o (IF o.pre = "fail" THEN <<Fail(ErrCh(o))>> ELSE <<Leave>>)
+      ELSE <<Defaults(o.p, ErrCh(o)), Enter("parent_parser", o.p), Enter("lenient_check", "true")>>                                   \* :500; _apply_actions :1371-1372
            \o (IF o.pre = "fail" THEN <<Fail(ErrCh(o))>> ELSE <<Leave, Leave>>))
   \o (IF o.pre = "fail" THEN << >>
       ELSE <<Enter("parent_parser", o.p), Leave>>                                                                                     \* merge_config :1393
            \o Common(o, o.p, TRUE) \o (IF o.m = "parse_path" THEN <<Leave>> ELSE << >>) \o <<Ret>>)      \* a late failure unwinds the cwd manager too
 
 NonParse(o) ==
-  CASE o.m = "get_defaults" -> SubDefaults \o <<Ret>>                                                  \* :1008-1052 (no default config files)
+  CASE o.m = "get_defaults" -> <<Defaults(o.p, "raise")>> \o SubDefaults \o <<Ret>>                                                  \* :1008-1052 (no default config files)
     [] o.m = "validate"     -> <<Enter("load_value_mode", "mode")>> \o (IF o.pre = "fail" THEN <<Fail("raise")>> ELSE <<Leave, Ret>>)   \* :1145-1155
     [] o.m = "dump"         -> <<Enter("load_value_mode", "mode"), Enter("load_value_mode", "mode")>>                                   \* :790, :1146
                                \o (IF o.pre = "fail" THEN <<Fail("raise")>>
@@ -214,6 +239,8 @@ NonParse(o) ==
                                         \o <<Leave, Leave, Enter("parent_parser", o.p), Leave, Ret>>)                                   \* :805-806
     [] o.m = "instantiate_classes" -> <<Enter("parent_parser", o.p), Enter("nested_links", "links"), Enter("class_instantiators", "inst")>>   \* :1240-1245
                                       \o (IF o.pre = "fail" THEN <<Fail("raise")>> ELSE <<Leave, Leave, Leave, Ret>>)
+    [] o.m = "format_help"  -> <<Defaults(o.p, "raise")>> \o SubDefaults \o <<Enter("parent_parser", o.p), Enter("defaults_cache", "defaults"), Leave, Leave, Ret>>   \* :1296-1313: get_defaults() of the CURRENT file, shown through defaults_cache
+    [] o.m = "environment"  -> <<I("file", o.p, o.file, "", ""), Ret>>                                  \* the default config file is written / edited / removed
     [] OTHER -> <<Ret>>
 
 Prog(o) == IF o.m = "parse_args" THEN ParseArgs(o) ELSE IF o.m \in ParseMethods THEN ParseOther(o) ELSE NonParse(o)
@@ -221,15 +248,16 @@ Prog(o) == IF o.m = "parse_args" THEN ParseArgs(o) ELSE IF o.m \in ParseMethods 
 (***************************************************************************)
 (* Alg layer: machine state and the step function                          *)
 (***************************************************************************)
-ManagedVars == {"parent_parser", "lenient_check", "load_value_mode", "argparse_ns", "sub_defaults", "parent_parsers",
+ManagedVars == {"parent_parser", "lenient_check", "load_value_mode", "argparse_ns", "sub_defaults", "parent_parsers", "defaults_cache", "shtab_ctx",
                 "single_subcommand", "previous_config", "apply_config_skip", "nested_links", "class_instantiators", "cwd"}
 Ctx0 == [v \in ManagedVars |->
            CASE v = "parent_parser" -> "none" [] v = "lenient_check" -> "false" [] v = "load_value_mode" -> "none"
              [] v = "argparse_ns" -> "std" [] v = "sub_defaults" -> "false" [] v = "parent_parsers" -> "empty"
              [] v = "single_subcommand" -> "true" [] v = "previous_config" -> "none" [] v = "apply_config_skip" -> "false"
-             [] v = "nested_links" -> "empty" [] v = "class_instantiators" -> "none" [] OTHER -> "cwd0"]
+             [] v = "nested_links" -> "empty" [] v = "class_instantiators" -> "none" [] v = "defaults_cache" -> "none"
+             [] v = "shtab_ctx" -> "none" [] OTHER -> "cwd0"]
 
-Res0(roots, names) == [pending |-> [p \in roots |-> "none"], args |-> [q \in names |-> "unset"], shtab |-> [p \in roots |-> FALSE],
+Res0(roots, names) == [pending |-> [p \in roots |-> "none"], args |-> [q \in names |-> "unset"], shtab |-> [p \in roots |-> "no"], dcf |-> [p \in roots |-> "absent"],
                        pk |-> "unset", sap |-> "unset", dk |-> "unset"]
 
 Start(o, res) == [res |-> res, ctx |-> Ctx0, prog |-> Prog(o), frames |-> << >>, mode |-> "run", out |-> "-",
@@ -268,7 +296,11 @@ StepFn(st) ==
     [] ins.i = "read"    -> [nx EXCEPT !.stale = st.stale \/ ins.a \notin st.wr]                \* reading what an EARLIER call left = history dependence
     [] ins.i = "readm"   -> [nx EXCEPT !.stale = st.stale \/ st.ctx[ins.a] # Ctx0[ins.a]]          \* a managed variable must be back at its initial value here
     [] ins.i = "args"    -> [nx EXCEPT !.res.args[ins.a] = ins.b, !.wr = st.wr \cup {"args:" \o ins.a}]
-    [] ins.i = "shtab"   -> [nx EXCEPT !.res.shtab[ins.a] = TRUE]
+    [] ins.i = "shtab"   -> IF st.res.shtab[ins.a] = "broken" THEN Raise(st, "error")                    \* handle_completions :39-41: add_argument raises argparse.ArgumentError
+                            ELSE [nx EXCEPT !.res.shtab[ins.a] = "added"]                           \*   ("conflicting option string"), outside every handler: never an exit
+    [] ins.i = "shtabrun" -> [nx EXCEPT !.res.shtab[ins.a] = "broken"]                              \* :130 remove_actions(parser, (ShtabAction,))
+    [] ins.i = "file"    -> [nx EXCEPT !.res.dcf[ins.a] = ins.b]
+    [] ins.i = "defaults" -> IF st.res.shtab[ins.a] = "broken" /\ ins.a \in ShtabBreaksDefaults THEN Raise(st, ins.b) ELSE nx   \* add_sub_defaults trips over the appended actions
     [] ins.i = "request" -> [nx EXCEPT !.res.pending[ins.a] = ins.b]
     [] ins.i = "readpend" -> nx                                                               \* only changes which links are applied below a sub-command
     [] ins.i = "fail"    -> Raise(st, ins.a)
@@ -292,4 +324,9 @@ AlgOutcome(o, res) == AlgRun(o, res).out
 
 \* the named deviation of the pinned tree: a request is pending on the root parser the call is made on
 PendingResidue(o, res) == res.pending[o.p] # "none"
+\* the named deviation of the current tree: --print_shtab=<shell> was run on the root parser; every later parse_args fails
+\* and, on a parser of ShtabBreaksDefaults, so does everything that computes the defaults
+ShtabResidue(o, res) == /\ res.shtab[o.p] = "broken"
+                        /\ \/ o.m = "parse_args"
+                           \/ o.p \in ShtabBreaksDefaults /\ o.m \in {"parse_object", "parse_string", "parse_path", "parse_env", "get_defaults", "format_help"}
 =============================================================================
